@@ -263,9 +263,10 @@ def check_C09(tier):
     reps = run_native(b, ['--seed', str(seed()), '--maxlen', maxlen, '--rc_cases', rc_cases, '--known', known_tsv('C09')], NCPU, 'C09')
     agg = Agg('C09')
     agg.add(reps)
-    rule = ('(a) ALL call sequences of length 1..%s over an alphabet of 24 abstract public calls (setters with valid/invalid arguments, by-label known/unknown, add_operation valid/null, '
-            'initialize, shoot, reset, destroy+recreate) enumerated exhaustively; (b) rapidcheck-generated sequences up to length ~60 with whole-sequence shrinking; oracle = explicit '
-            'model (which calls must raise, every getter after every step, reset == fresh, events == fresh instance on the same tape); '
+    rule = ('(a) ALL call sequences of length 1..%s over an alphabet of 28 abstract public calls (setters with valid/invalid arguments incl. no/one-sided/inverted/too-high energy windows, by-label known/unknown, add_operation valid/null, '
+            'initialize, shoot, reset, destroy+recreate) enumerated exhaustively; (a\') the failure-recovery family enumerated completely: 10 valid configurations x every call that spoils one '
+            '(unknown isotope, missing level, gA mode without data, wrong category, inverted window, window above Q) ; initialize (refused) ; repairing call ; EVERY sequence of 0..2 further calls ; initialize ; shoot ; shoot; (b) rapidcheck-generated sequences up to length ~60 with whole-sequence shrinking; oracle = explicit '
+            'model (which calls must raise, every getter after every step, reset == fresh, events and toallevents == fresh instance on the same tape); '
             'non-trivial & distinct = distinct sequences containing at least one refused call and one successful initialize' % maxlen)
     return verdict(agg, tier, t0, rule, ['gsl_integration_qng is interposed by a cheap deterministic stub in this binary (only the protocol is under test; acceptance itself is C06)',
                                          'the expected outcome of initialize() is the outcome on a fresh instance configured with the same fields',
